@@ -41,9 +41,9 @@ def register(db):
         clock=["now"],
         requires=["P_next_ok(self)"],
         ensures={
-            "until": "implies(until_ahead(self, now), result == self.delay.delay_until)",
+            "until": "implies(until_ahead(self, now), result is not None and result == self.delay.delay_until)",
             "grid": "implies(periodic(self, now), (result - time_base(self)) % self.delay.defer_by == timedelta(0))",
-            "window_lo": "implies(periodic(self, now), now < result)",
+            "window_lo": "implies(periodic(self, now), result is not None and now < result)",
             "window_hi": "implies(periodic(self, now), result <= now + self.delay.defer_by)",
             "none": "implies(not until_ahead(self, now) and self.delay.defer_by is None, result is None)",
         },
